@@ -255,8 +255,11 @@ pub fn native_violation_floor(g: &Goal<f64>, tol: f64, floor: f64) -> Option<Str
         // IEEE: NaN != x holds, every ordered comparison with NaN fails
         Rel::Ne if a.is_nan() || b.is_nan() => false,
         _ if a.is_nan() || b.is_nan() => true,
-        Rel::Eq => (a - b).abs() > tol * sc + floor,
-        Rel::Le => a - b > tol * sc + floor,
+        // infinities: equal only if identical; never within a tolerance of anything else
+        Rel::Eq if a.is_infinite() || b.is_infinite() => a != b,
+        Rel::Le if a.is_infinite() || b.is_infinite() => !(a <= b),
+        Rel::Eq => a != b && (a - b).abs() > tol * sc + floor,
+        Rel::Le => !(a <= b) && a - b > tol * sc + floor,
         Rel::Lt => !(a < b),
         Rel::Ne => a == b,
     };
